@@ -135,8 +135,12 @@ def split_authority(a: str):
     if "[" in hostport or "]" in hostport:
         lb = hostport.find("[")
         rb = hostport.find("]", lb + 1) if lb >= 0 else -1
-        if lb < 0 or rb < 0:
+        if ("[" in hostport) != ("]" in hostport):
             notes.append("unbalanced-brackets")
+            return user, password, hostport, None, notes
+        if lb < 0 or rb < 0:
+            # both kinds present but ']' precedes '[': garbage, not specified
+            notes.append("text-before-bracket")
             return user, password, hostport, None, notes
         if lb != 0:
             notes.append("text-before-bracket")
